@@ -470,6 +470,12 @@ class World:
         for name, m in self.mods.items():
             short = name.replace("fastavro.", "")
             for k, v in list(m.__dict__.items()):
+                if isinstance(v, type) and v.__module__ == name:
+                    # mutable class-level attributes are shared by every instance (and thread)
+                    for ak, av in list(vars(v).items()):
+                        if not ak.startswith("__") and isinstance(av, (dict, list, set)):
+                            self.rec.mark(av, f"{short}.{k}.{ak}")
+                    continue
                 if k.startswith("__") or isinstance(v, (types.ModuleType, type)) or k == HOOK:
                     continue
                 if isinstance(v, types.FunctionType):
